@@ -1,6 +1,6 @@
 """Sidecar contracts for the batch classes of pjrpc/common/v20.py."""
 from pyvc.api import contract
-from spec.prims import at_entry, class_is, dup_in, is_absent, member, old, same, seq_concat, seq_same
+from spec.prims import at_entry, class_is, contents_as_old, contents_unchanged, dup_in, is_absent, member, old, same, seq_concat, seq_same
 
 from pjrpc.common.common import UNSET
 from pjrpc.common.v20 import BatchRequest, BatchResponse, Request, Response
@@ -15,17 +15,18 @@ class AddIds:
     raises_only = ('pjrpc.common.exceptions:IdentityError',)
     modifies = ('self._ids',)
     assumed_clauses = ('returns_iff',)
-    loop0 = {'modifies': ['$dict(new_ids)']}
+    loop0 = {'modifies': ['$fresh']}
 
     def returns_iff(self, ids):
         return not (self._strict and dup_in(self._ids, ids))
 
-    def invariant0(self, ids, new_ids, k):
-        # the loop works on a private copy: the batch's own id set (object and contents) is untouched
-        return same(self._ids, at_entry(self._ids)) and not same(new_ids, self._ids)
+    def invariant0(self, ids, k):
+        # the loop must not touch the batch's own id set: neither the attribute nor the set's contents
+        return same(self._ids, at_entry(self._ids)) and contents_unchanged(self._ids)
 
     def ensures_on_IdentityError(self, ids, exc):
-        return same(self._ids, old(self._ids))
+        # a failed call leaves the batch unchanged (atomic append / extend)
+        return same(self._ids, old(self._ids)) and contents_as_old(self._ids)
 
     def ensures_nonstrict(self, ids, result):
         return result is None and (self._strict or same(self._ids, old(self._ids)))
@@ -67,3 +68,47 @@ class BatchRequestAppend:
 
     def ensures_on_IdentityError(self, request, exc):
         return same(self._ids, old(self._ids)) and seq_same(self._requests, old(tuple(self._requests)))
+
+
+# ------------------------------------------------------------------------------------------------ batch wire forms (C05)
+from spec.wire import request_wire, response_wire
+from pjrpc.common.exceptions import JsonRpcError
+
+
+def params_ok(p):
+    return p is None or isinstance(p, (list, tuple, dict))
+
+
+def response_inv(r):
+    return ((r._result is UNSET) != (r._error is UNSET)) and (r._error is UNSET or isinstance(r._error, JsonRpcError))
+
+
+@contract('pjrpc.common.v20:BatchRequest.to_json', props=['C05', 'C07'])
+class BatchRequestToJson:
+    """ASSUMED (not proved: the element-wise quantified postcondition over a comprehension takes the generator
+    minutes and is not yet stable); bounded stand-in: ./check standins"""
+    assumed = True
+    types = {'self': 'pjrpc.common.v20:BatchRequest'}
+    raises_only = ()
+    result_type = '=list'
+
+    def ensures_wire(self, result):
+        # C05: the array of the elements' wire forms, in element order
+        return (len(result) == len(self._requests)
+                and all(request_wire(result[i], self._requests[i]) for i in range(len(result))))
+
+
+@contract('pjrpc.common.v20:BatchResponse.to_json', props=['C05', 'C01'])
+class BatchResponseToJson:
+    """ASSUMED (see BatchRequestToJson); bounded stand-in: ./check standins"""
+    assumed = True
+    types = {'self': 'pjrpc.common.v20:BatchResponse'}
+    raises_only = ()
+
+    def ensures_wire(self, result):
+        if self._error is not UNSET:
+            # a batch-level error is a single response object with id null
+            return (isinstance(result, dict) and member(result, 'jsonrpc') == '2.0' and member(result, 'id') is None
+                    and is_absent(member(result, 'result')) and isinstance(member(result, 'error'), dict))
+        return (isinstance(result, list) and len(result) == len(self._responses)
+                and all(response_wire(result[i], self._responses[i]) for i in range(len(result))))
